@@ -153,6 +153,42 @@ let run_conc_case hd body =
   | ["CONC"; "DW"; _; n] -> let o = List.map parse_wop a in emit_ms (dw_conc_case !variant (ni n) o tt r s t) (w_conc_spec false (ni n) o tt r)
   | ["CONC"; "UW"; _; n] -> let o = List.map parse_wop a in emit_ms (uw_conc_case !variant (ni n) o tt r s t) (w_conc_spec true (ni n) o tt r)
   | _ -> failwith "bad CONC case"
+(* decimal string of any size -> Z (mantissas of long double totals reach 2^64) *)
+let zbig (str : string) : z =
+  let neg = String.length str > 0 && str.[0] = '-' in
+  let digits = if neg then String.sub str 1 (String.length str - 1) else str in
+  let ten = z_of_int 10 in
+  let v = ref Z0 in String.iter (fun c -> v := Z.add (Z.mul !v ten) (z_of_int (Char.code c - 48))) digits;
+  if neg then Z.opp !v else !v
+let segs_of_iline_z l = let body = if String.length l > 2 then String.sub l 2 (String.length l - 2) else "" in List.map (fun sg -> List.map zbig (toks sg)) (String.split_on_char '|' body)
+(* floating-point totals: WF DW|UW hex n : FA i j <16 hex digits> ; FS i j <hex> ; FR i j ; FC *)
+let run_float_case hd body =
+  let opsof str = List.filter (fun t -> t <> []) (List.map toks (String.split_on_char ';' str)) in
+  let halves h = let h = (String.make (16 - String.length h) '0') ^ h in (zi (string_of_int (int_of_string ("0x" ^ String.sub h 0 8))), zi (string_of_int (int_of_string ("0x" ^ String.sub h 8 8)))) in
+  let parse t = match t with
+    | ["FA"; i; j; h] -> let (hi, lo) = halves h in fop_add (ni i) (ni j) hi lo
+    | ["FS"; i; j; h] -> let (hi, lo) = halves h in fop_set (ni i) (ni j) hi lo
+    | ["FR"; i; j] -> FRemove (ni i, ni j) | ["FC"] -> FClear | _ -> failwith "bad float op" in
+  let ops = List.map parse (opsof body) in
+  let und = (match hd with [_; "UW"; _; _] -> true | _ -> false) in
+  let il = List.filter (fun l -> String.length l >= 2 && String.sub l 0 2 = "I ") !ilines in
+  let obs = List.map (fun l -> match segs_of_iline_z l with _ :: [s; m; e] :: _ -> ((s, m), e) | _ -> ((zi "2", zi "0"), zi "0")) il in
+  emit_ms (f_case und ops) (f_spec und ops obs)
+(* Dijkstra with double weights: DJF DW|UW hex n : FA i j <hex> ; ... | source *)
+let run_djf_case hd body =
+  let opsof str = List.filter (fun t -> t <> []) (List.map toks (String.split_on_char ';' str)) in
+  let parts = String.split_on_char '|' body in
+  let ops, q = (match parts with [a; b] -> opsof a, toks b | [a] -> opsof a, [] | _ -> failwith "bad DJF case") in
+  let halves h = let h = (String.make (16 - String.length h) '0') ^ h in (zi (string_of_int (int_of_string ("0x" ^ String.sub h 0 8))), zi (string_of_int (int_of_string ("0x" ^ String.sub h 8 8)))) in
+  let es = List.filter_map (fun t -> match t with ["FA"; i; j; h] -> Some ((ni i, ni j), halves h) | _ -> None) ops in
+  let s = (match q with s :: _ -> ni s | [] -> ni "0") in
+  let il = List.filter (fun l -> String.length l >= 2 && String.sub l 0 2 = "I ") !ilines in
+  let sg = (match il with l :: _ -> segs_of_iline_z l | [] -> []) in
+  let seg j = (match List.nth_opt sg j with Some x -> x | None -> []) in
+  let cs = List.map (fun z -> nat_of_int (min (int_of_z z) 1000)) (seg 3) in
+  match hd with
+  | ["DJF"; cls; _; n] -> let und = (cls = "UW") in emit_ms (djf_case und (ni n) es s cs) (djf_spec und (ni n) es s (seg 1) cs)
+  | _ -> failwith "bad DJF case"
 let run_case line =
   match String.index_opt line ':' with
   | None -> failwith ("bad case: " ^ line)
@@ -162,6 +198,8 @@ let run_case line =
     if (match hd with "CV" :: _ | "EL" :: _ -> true | _ -> false) then run_conv_case hd body else
     if (match hd with "SUB" :: _ -> true | _ -> false) then run_sub_case hd body else
     if (match hd with "CONC" :: _ -> true | _ -> false) then run_conc_case hd body else
+    if (match hd with "WF" :: _ -> true | _ -> false) then run_float_case hd body else
+    if (match hd with "DJF" :: _ -> true | _ -> false) then run_djf_case hd body else
     if (match hd with "PATH" :: _ | "DJ" :: _ -> true | _ -> false) then run_path_case hd body else
     if (match hd with "BIN" :: _ | "BINW" :: _ | "TXT" :: _ | "TXTW" :: _ | "NOFILE" :: _ -> true | _ -> false) then run_io_case hd body else
     let ops = List.filter (fun t -> t <> []) (List.map toks (String.split_on_char ';' body)) in
